@@ -356,6 +356,21 @@ theorem kv_list_eq_map_HostsList (es : List (Str × List Str))
   simp [decodeHosts, hostsOfList_entries es [] hk hips hnd (by simp), hostsOfMap_entries]
 
 
+/-- `extra_hosts` with either separator: a list whose entries are `host=ip,…` or the legacy `host:ip,…` (IPv6 addresses
+included: only the first colon separates) decodes to the same `HostsList` as the mapping `{host: [ip, …]}` -/
+theorem kv_list_eq_map_HostsList_legacy (es : List (Bool × Str × List Str))
+    (hok : ∀ e ∈ es, HostEntryOK e) (hnd : (es.map fun e => e.2.1).Nodup) :
+    decodeHosts (.seq (es.map hostEntrySep)) = decodeHosts (.map (es.map fun e => hostMapEntry e.2)) := by
+  have h2 : hostsOfMap (es.map fun e => hostMapEntry e.2) = some (es.map fun e => (String.ofList e.2.1, e.2.2)) := by
+    simpa [List.map_map, Function.comp_def] using hostsOfMap_entries (es.map fun e => e.2)
+  simp [decodeHosts, hostsOfList_entriesSep es [] hok hnd (by simp), h2]
+
+/-- non-vacuity: `["a:1.2.3.4", "b:::1", "c=10.0.0.1"]` -/
+example : decodeHosts (.seq [hostEntrySep (true, "a".toList, ["1.2.3.4".toList]), hostEntrySep (true, "b".toList, ["::1".toList]),
+      hostEntrySep (false, "c".toList, ["10.0.0.1".toList])])
+    = some (.map [("a", .seq [.str "1.2.3.4"]), ("b", .seq [.str "::1"]), ("c", .seq [.str "10.0.0.1"])]) := by rfl
+
+
 /-- non-vacuity: `["h=1.2.3.4,[::1]"]` and `{h: ["1.2.3.4", "[::1]"]}` both decode to `h ↦ [1.2.3.4, ::1]` -/
 example : decodeHosts (.seq [hostEntry ("h".toList, ["1.2.3.4".toList, "[::1]".toList])])
     = some (.map [("h", .seq [.str "1.2.3.4", .str "::1"])]) := by rfl
